@@ -111,7 +111,18 @@ def _helpers():
 
 
 PATH_NAMES = ["scale", "convert_to_si", "convert_to_unit", "expr_symbolic", "expr_evaluated", "evaluate_quantity"]
-HELPER_NAMES = ["evalq_n3", "evalq_chop", "to_si", "expr_eval_n4", "algebra", "print"]
+HELPER_NAMES = ["evalq_n3", "evalq_chop", "to_si", "expr_eval_n4", "algebra", "print", "long_session"]
+LONG_SESSION = 40000     # fresh quantities created by the history step "long_session" (a long interactive session)
+
+
+def long_session() -> None:
+    """Create LONG_SESSION fresh quantities of several kinds; the catalogue's constants are the oldest
+    quantities of the process and must not be affected by how many were created after them."""
+    from sympy.physics import units
+    from symplyphysics import Quantity
+    forms = [units.meter, 1, 3 * units.second, units.kilogram / units.meter**3]
+    for i in range(LONG_SESSION):
+        Quantity(forms[i % len(forms)])
 
 
 def catalogue():
@@ -136,6 +147,9 @@ def record_tables(hist):
     problems = []
     names = exported + others
     for h in hist:
+        if h == "long_session":
+            long_session()
+            continue
         for name in names:
             q = getattr(quantities, name, None)
             if isinstance(q, Quantity):
@@ -353,7 +367,8 @@ def main() -> int:
         "identities are compared to the coarsest precision involved and to at most 7 digits (rounding of chained 9-digit products)",
         "public constants not listed in __all__ (gravitational_constant, sun_luminosity) are compared but a deviation is not an alarm",
         "a constant is read through the scale factor and through the public conversion / evaluation functions of "
-        "symplyphysics.core.convert, before and after helper calls on the catalogue's own objects (each history in a fresh "
+        "symplyphysics.core.convert, before and after helper calls on the catalogue's own objects and after a 'long session' "
+        f"creating {LONG_SESSION} fresh quantities (each history in a fresh "
         "process image); a helper raising is ignored, a read path raising is a violation",
     ]
     return run.finish(exhaustive=True)
